@@ -73,8 +73,13 @@ def is_reset(r):
     return r.get("a") == "Reset"
 
 
+# deviations that have been repaired in /repo by fix: commits (F8 970176d, FCC = F19 cba9243): the committed
+# spec describes the repaired behaviour, a regression is a conformance violation
+REPAIRED_IN_TREE = {"F8", "FCC"}
+
+
 def fixed_set():
-    fx = set(filter(None, os.environ.get("C13_FIXED", "").split(",")))
+    fx = set(filter(None, os.environ.get("C13_FIXED", "").split(","))) | set(REPAIRED_IN_TREE)
     mut = os.path.basename(os.environ.get("VERIF_MUTATION", ""))
     if mut:
         if "ALL" in mut:
